@@ -108,6 +108,15 @@ def make_plan(cases, seed, nrand, per_instance=8):
                 for k in order[g:g + per_instance]:
                     inst["cases"].append(dict(id="tlc/%s/%d" % (mode, mine[k]["no"]), attrs=mine[k]["attrs"],
                                               cseed=rng.randrange(1, 1 << 31)))
+    # long-lived instances: thousands of distinct strings through one processor, early ones coming back at the end
+    # ("for the lifetime of the instance": whatever an instance remembers about strings must stay right when it is full)
+    for signal, mode in (("logs", "all"), ("traces", "list")):
+        inst = new_instance(signal, mode)
+        per = 1500
+        for k in range(4):
+            inst["cases"].append(dict(id="bulk/%s/%d" % (signal, k), bulk=per, base=k * per, cseed=rng.randrange(1, 1 << 31)))
+        inst["cases"].append(dict(id="bulk/%s/again" % signal, bulk=120, base=0, cseed=rng.randrange(1, 1 << 31)))
+        inst["cases"].append(dict(id="bulk/%s/tail" % signal, bulk=120, base=4 * per - 60, cseed=rng.randrange(1, 1 << 31)))
     signals = ("traces", "logs", "metrics")
     n = 0
     while n < nrand:
